@@ -49,6 +49,15 @@ func (v *Vue) evaluate(ctx VueContext, nodes []*html.Node, depth int) ([]*html.N
 				}
 				// Mark this v-once element as rendered
 				ctx.seen[vSeenID] = true
+
+				// The element is emitted now. Evaluate an unmarked copy, so that the output
+				// nodes carry no v-once marker: a component whose root is a <template> is
+				// evaluated a second time by evalInclude, which would otherwise take the
+				// emitted element for a later instantiation and drop it.
+				node = helpers.ShallowCloneWithAttrs(node)
+				node.FirstChild, node.LastChild = nodes[i].FirstChild, nodes[i].LastChild
+				helpers.RemoveAttr(node, "v-once")
+				helpers.RemoveAttr(node, "v-once-id")
 			}
 
 			// Check for v-pre early - prevents all interpolation and directive processing
